@@ -39,7 +39,7 @@ func init() {
 }
 
 func unsupported(format string, args ...any) *pgError {
-	return &pgError{Code: codeUnsupported, Message: "pgfake: " + fmt.Sprintf(format, args...)}
+	return &pgError{Code: codeUnsupported, Message: "pgfake: " + fmt.Sprintf(format, args...), fake: true}
 }
 
 // parseSQL parses a string containing zero or more statements.
